@@ -271,7 +271,11 @@ def rand_edit_vectors(ops, n, seed):
             ts = sorted(set(v for x in ref["ents"] for v in ([x["s"], x["e"]] if "s" in x else [x["t"]])))
             # the function rejects a reference whose timestamps (from the second one on) are closer than maxDifference
             # (exactly maxDifference apart: decided by float rounding on the non-dyadic millisecond grid, so counted as dense)
-            dense = any(b2 - a2 <= D for a2, b2 in zip(ts[1:], ts[2:]))
+            diffs = [b2 - a2 for a2, b2 in zip(ts[1:], ts[2:])]
+            if diffs and rng.random() < 0.35:
+                D = min(diffs)                        # the smallest spacing exactly: not "too dense"
+            dense = any(b2 - a2 < D for a2, b2 in zip(ts[1:], ts[2:]))
+            tie = any(b2 - a2 == D for a2, b2 in zip(ts[1:], ts[2:]))
             # jitter the other tiers around the reference timestamps
             for t in pre["tiers"]:
                 if t is ref or not ts or rng.random() < 0.3:
@@ -291,7 +295,7 @@ def rand_edit_vectors(ops, n, seed):
                     t["ents"] = keep
                 else:
                     t["ents"] = sorted(t["ents"], key=lambda x: x["t"])
-            args = {"ref": ref["name"], "D": D, "dense": dense}
+            args = {"ref": ref["name"], "D": D, "dense": dense, "tie": tie}
         elif op == "validateTg":
             args = {"mode": rng.choice(["silence", "warning", "error"])}
         elif op == "saveTg":
